@@ -167,6 +167,19 @@ def run_c15(tier, seed):
         else:
             validated += 1
     chk.coverage["stop_vs_registration_rounds"] = len(srows)
+    # "serves connections on every enabled port until Stop" holds for the N-th concurrent client as for the first: many plain and
+    # TLS clients connect at the same moment and stay connected; every one is served; then Restart, and again
+    import thresholds as T
+    crowd = max([24] + [v + 8 for v in T.new_constants() if v <= 400])
+    brows, bo = run_mode(chk, "burst", ["3" if tier == "quick" else "12", str(crowd)], timeout=300)
+    for r in brows:
+        if r.get("error"):
+            continue
+        if r.get("problems"):
+            chk.violation("concurrent-clients", "%d plain and TLS clients connecting at the same moment and staying connected (round %d): %s" % (r.get("clients", 0), r.get("round", 0), " ; ".join(r["problems"])[:500]), dict(row=r))
+        else:
+            validated += 1
+    chk.coverage["concurrent_client_rounds"] = dict(rounds=len(brows), clients_per_round=2 * crowd)
     if len(rows) != len(lines) and not chk.violations:
         chk.violation("incomplete", "%d of %d sequences produced a result" % (len(rows), len(lines)), dict(), True)
     if broken and not chk.violations:
